@@ -191,7 +191,7 @@ Section X.
       rewrite He. cbn [of_option bind].
       destruct (Z.eqb_spec (be_state e) PB_PARTIALLY_PRESENT) as [E|E]; [|reflexivity].
       exfalso. apply (Hn7 _ _ He). exact E.
-    - intros io n. unfold vhdx_emit.
+    - intros io n _ _ _. unfold vhdx_emit.
       destruct (be_state e =? PB_NOT_PRESENT); [eauto|].
       destruct ((be_state e =? PB_UNDEFINED) || (be_state e =? PB_ZERO) || (be_state e =? PB_UNMAPPED)); [eauto|].
       destruct (be_state e =? PB_FULLY_PRESENT); [eauto|].
